@@ -139,6 +139,9 @@ FRAGMENTS = [
     '  0 = E "section a"', '  10 = E "lyric b"', '  5 = E "text"', '  5 = E "qu"ote"',
     "  0 = N 0 0", "  0 = N 5 0", "  10 = N 1 100", "  10 = N 2 50", "  20 = N 7 0", "  20 = N 6 0", "  5 = N 4 99999999", "  30 = N 8 0",
     "  0 = S 2 100", "  15 = S 2 0", "  25 = S 64 5", "  0 = E solo", "  40 = E soloend", "  99999999 = N 0 0", "garbage", "  12 = ",
+    # lines whose last token is EMPTY (a separator with nothing after it) or missing
+    "  12 = E ", "  12 = E \t", '  12 = E ""', '  12 = E "', "  12 = N ", "  12 = N 0 ", "  12 = S 2 ", "  12 = TS ", "  12 = TS 4 ", "  12 = B ", "  12 = A ",
+    "  Name = ", '  Name = ""', "  Resolution = ", "  Player2 = ", "  = ", " = 5", "[ ]", "[Song", "Song]", "  12 = E solo end", "  0 = TS 4 2", "  0 = TS 4",
 ]
 
 
@@ -209,6 +212,22 @@ def run(ctx):
             items.append((f"{bname}s-{k}", "\n".join(apply_script(base, b["script"], salt=k)) + "\n", b["script"], bname))
         scripts_total += len(seen)
     ctx.extra["edit_scripts"] = scripts_total
+    # every line cut short: each PREFIX of each line of the base charts (exhaustive), and each blank-separated token of each
+    # line removed or emptied (the separators kept) - the "half-written line" that a crash, a merge or an editor leaves behind
+    cuts = 0
+    for bname, base in bases:
+        for p_, line in enumerate(base):
+            variants = {line[:c] for c in range(len(line))}
+            toks = re.split(r"( +)", line)
+            for t_ in range(0, len(toks), 2):
+                if toks[t_]:
+                    variants.add("".join(toks[:t_] + [""] + toks[t_ + 1:]))              # token emptied, separators kept
+                    variants.add("".join(toks[:t_] + toks[t_ + 2:]) if t_ + 2 <= len(toks) else "".join(toks[:max(0, t_ - 1)]))
+            variants.discard(line)
+            for v in sorted(variants):
+                items.append((f"{bname}c-{cuts}", "\n".join(base[:p_] + [v] + base[p_ + 1:]) + "\n", ["cut", p_ + 1, v], bname))
+                cuts += 1
+    ctx.extra["cut_lines"] = cuts
     # files assembled from arbitrary fragments (TLC -simulate)
     fcfg = f"SPECIFICATION Spec\nCONSTANTS\n  NFrag = {len(FRAGMENTS)}\n  MaxLines = 40\nINVARIANT Bounded\nINVARIANT Emit\nCHECK_DEADLOCK FALSE\n"
     fbeh = _simulate(ctx, "MC_Fragments", fcfg, "fragments", ctx.pick(2500, 60000), 42)
